@@ -45,6 +45,9 @@ func getDatetime() *Datetime {
 }
 
 func Discard(p Primary) {
+	if verifPoison(p) {
+		return
+	}
 	if p != nil {
 		switch p.(type) {
 		case *String:
